@@ -8,6 +8,7 @@ shows redirections.  Oracle: argv[1:] == the argument texts, byte for byte."""
 import itertools
 import json
 import os
+import zlib
 
 import common
 from common import Report, Sandbox, run_cicada, crashed
@@ -15,7 +16,8 @@ from common import Report, Sandbox, run_cicada, crashed
 META = list("|&;<>()$`\\\"'*?[]{},~#!=%^")
 ALPHA = META + [" ", "\t", "a", "é", "中"]
 assert len(ALPHA) == 30
-FOLLOWERS = ["", " | vp_b x", " ; vp_b x", " && vp_b x", " || vp_b x"]
+# what may follow the arguments: nothing, an operator + second command, or a genuine input redirection of the same command
+FOLLOWERS = ["", " | vp_b x", " ; vp_b x", " && vp_b x", " || vp_b x", " < a", " <<< hs"]
 _sb = None
 
 
@@ -93,7 +95,10 @@ def symptom(args, follower, r, recs, before, after):
         return "argument-changed"
     if m["ppid"] != r.pid:
         return "not-a-child-of-the-shell(backgrounded)"
-    if m["std"][0] is None or m["std"][0][2] != "chr":
+    if follower in (" < a", " <<< hs"):
+        if m["std"][0] is None or m["std"][0][2] == "chr" or (follower == " < a" and m["std"][0][2] != "reg"):
+            return "genuine-input-redirection-not-applied"
+    elif m["std"][0] is None or m["std"][0][2] != "chr":
         return "stdin-redirected"
     if follower.startswith(" | "):
         if m["std"][1] is None or m["std"][1][2] != "fifo" or m["std"][1][1] == r.stdout_ino:
@@ -104,7 +109,7 @@ def symptom(args, follower, r, recs, before, after):
         return "stderr-redirected"
     if m["open_fds"] != [0, 1, 2]:
         return None  # descriptor hygiene is C08's business
-    exp_f = 0 if (follower == "" or follower.startswith(" ||")) else 1
+    exp_f = 0 if ("vp_b" not in follower or follower.startswith(" ||")) else 1
     if len(foll) != exp_f:
         return "follower-ran-%d-times" % len(foll)
     if exp_f and foll[0]["argv"][1:] != ["x"]:
@@ -229,9 +234,9 @@ def gen_cases(tier, seed):
             else:
                 # length 3 (thorough): only + one rotating other position
                 add([(t, s)], "", "exh-only")
-                k = hash(t) % 6
+                k = zlib.crc32(t.encode()) % 6
                 if k < 4:
-                    add([("x", "sq"), (t, s)], FOLLOWERS[1 + k], "exh-last-before")
+                    add([("x", "sq"), (t, s)], FOLLOWERS[1 + (zlib.crc32(t.encode()) // 6) % (len(FOLLOWERS) - 1)], "exh-last-before")
                 elif k == 4:
                     add([(t, s), ("y", "dq")], "", "exh-first")
                 else:
